@@ -68,3 +68,63 @@ Section Proofs.
     destruct (is_nil (outliers rb)); [exact P1|apply filter_perm; exact P1].
   Qed.
 End Proofs.
+
+(* ---- the aggregated analysis series (x = control totals, y = treatment totals per date and period) *)
+Section Analysis.
+  Variables (noisy : list row -> option (list Z)) (outliers : list row -> list Z).
+  Local Open Scope Q_scope.
+
+  Definition cell (d p g : Z) (r : row) : bool := (r_date r =? d)%Z && (r_period r =? p)%Z && (r_group r =? g)%Z.
+  Definition kept (f : fitted) (r : row) : bool :=
+    negb (memz (r_geo r) (reported_geos f)) && negb (memz (r_date r) (f_outliers f)).
+
+  (* a total over the screened data is the total, over the INPUT, of the rows of that date, period and group whose geo
+     is not reported noisy and whose date is not a reported outlier *)
+  Theorem analysis_total_of_screened rows d p g :
+    let f := fit noisy outliers rows in
+    total (f_data f) d p g = fold_right Qplus 0 (map r_val (filter (fun r => kept f r && cell d p g r) rows)).
+  Proof.
+    cbv zeta. unfold total. rewrite (screened_data_def noisy outliers rows). cbv zeta. rewrite filter_filter. reflexivity.
+  Qed.
+  (* a reported outlier date has no entry at all in the analysis series, and a date all of whose rows (of a group) belong to
+     reported geos has none for that group *)
+  Theorem analysis_has_no_entry_for_reported_dates rows d p g :
+    let f := fit noisy outliers rows in
+    memz d (f_outliers f) = true -> present (f_data f) d p g = false.
+  Proof.
+    cbv zeta. intros Hd. unfold present. apply not_true_is_false. intros H. apply existsb_exists in H.
+    destruct H as (r & Hin & Hc). apply (screened_row_iff noisy outliers rows r) in Hin. destruct Hin as (_ & _ & Ho).
+    apply andb_true_iff in Hc. destruct Hc as [Hc _]. apply andb_true_iff in Hc. destruct Hc as [Hc _].
+    apply Z.eqb_eq in Hc. rewrite Hc in Ho. congruence.
+  Qed.
+  Theorem analysis_entry_iff_a_surviving_row rows d p g :
+    let f := fit noisy outliers rows in
+    present (f_data f) d p g = true <-> exists r, In r rows /\ kept f r = true /\ cell d p g r = true.
+  Proof.
+    cbv zeta. unfold present. rewrite existsb_exists. split.
+    - intros (r & Hin & Hc). apply (screened_row_iff noisy outliers rows r) in Hin. destruct Hin as (Hin & Hg & Ho).
+      exists r. split; [exact Hin|]. split; [unfold kept; now rewrite Hg, Ho|exact Hc].
+    - intros (r & Hin & Hk & Hc). exists r. split; [|exact Hc]. apply (screened_row_iff noisy outliers rows r).
+      unfold kept in Hk. apply andb_true_iff in Hk. destruct Hk as [Hg Ho]. apply negb_true_iff in Hg, Ho. auto.
+  Qed.
+  (* totals do not depend on the order of the rows, nor on rows of other dates, periods or groups *)
+  Lemma qsum_perm (a b : list Q) : Permutation a b -> fold_right Qplus 0 a == fold_right Qplus 0 b.
+  Proof.
+    induction 1 as [|x a' b' H IH|x y l|a' b' c' H1 IH1 H2 IH2]; cbn [fold_right].
+    - reflexivity.
+    - now rewrite IH.
+    - ring.
+    - now rewrite IH1.
+  Qed.
+  Theorem analysis_total_row_order_irrelevant a b d p g : Permutation a b -> total a d p g == total b d p g.
+  Proof. intros P. unfold total. apply qsum_perm. apply Permutation_map. apply filter_perm. exact P. Qed.
+  Theorem analysis_total_ignores_other_cells rows extra d p g :
+    (forall r, In r extra -> cell d p g r = false) -> total (rows ++ extra) d p g = total rows d p g.
+  Proof.
+    intros H. unfold total. rewrite filter_app.
+    replace (filter _ extra) with (@nil row); [now rewrite app_nil_r|].
+    symmetry. induction extra as [|r l IH]; [reflexivity|]. cbn [filter].
+    change ((r_date r =? d)%Z && (r_period r =? p)%Z && (r_group r =? g)%Z) with (cell d p g r).
+    rewrite (H r (or_introl eq_refl)). apply IH. intros r' Hr'. apply H. now right.
+  Qed.
+End Analysis.
